@@ -233,7 +233,7 @@ func c04GenericArity(o lib.Outcome) string {
 // c04OutcomesMore canonicalises the evaluation of a further context into one outcome per call.
 func c04OutcomesMore(sh c04Shape, ctx string, o lib.Outcome) []string {
 	if !o.Ok {
-		if a := c04GenericArity(o); a != "" && (ctx == "clos" || ctx == "around") {
+		if a := c04GenericArity(o); a != "" && (ctx == "clos" || ctx == "around" || ctx == "clos3") {
 			return []string{"err " + a}
 		}
 		return []string{c04Outcome(o)}
